@@ -3,6 +3,7 @@
    output: create trunc:N mmap:N munmap:N write:OFF:LEN msync:N fsync close ...   (one line)
            T <m|a> <0|1> <H> <V> <P> <M> <W>  runs the extracted finish_trace on dummy contents of those sizes and prints
            the shape obtained through `shapes` (must equal the S answer: C09_trace_shape, checked here by execution)
+           F <m|a> <0|1> <H> <V> <P> <M> <W>  shape of failed_sync_trace (FinishFile's sync fails)
            H <order>  header_size order *)
 open C09_model
 let nat_of_int (n : int) : nat = let rec go acc k = if k <= 0 then acc else go (S acc) (k - 1) in go O n
@@ -23,6 +24,7 @@ let show = function
   | SWrite (o, l) -> "write:" ^ string_of_int (int_of_nat o) ^ ":" ^ string_of_int (int_of_nat l)
   | SMsync n -> "msync:" ^ string_of_int (int_of_nat n)
   | SFsync -> "fsync"
+  | SSyncFail -> "syncfail"
   | SClose -> "close"
 
 let wm = function "m" -> WriteMmap | _ -> WriteAfter
@@ -38,6 +40,12 @@ let handle (line : string) : string =
       let c = { c_H = nat_of_int (i h); c_vocab1 = zeros (i v); c_vocab2 = zeros (i v); c_pad = nat_of_int (i p); c_search1 = zeros (i mm);
                 c_search2 = zeros (i mm); c_words = zeros (i w); c_header = zeros (i h) } in
       String.concat " " (List.map show (shapes (finish_trace (wm m) (iv = "1") c)))
+  | ["F"; m; iv; h; v; p; mm; w] ->
+      (* FinishFile's sync fails: the extracted failed_sync_trace on dummy contents of those sizes *)
+      let i = int_of_string in
+      let c = { c_H = nat_of_int (i h); c_vocab1 = zeros (i v); c_vocab2 = zeros (i v); c_pad = nat_of_int (i p); c_search1 = zeros (i mm);
+                c_search2 = zeros (i mm); c_words = zeros (i w); c_header = zeros (i h) } in
+      String.concat " " (List.map show (shapes (failed_sync_trace (wm m) (iv = "1") c)))
   | ["H"; o] -> string_of_int (int_of_nat (header_size (nat_of_int (int_of_string o))))
   | _ -> "BAD-CASE"
 
